@@ -59,6 +59,11 @@ def gen_case(rnd, tier: str, i: Any) -> Dict[str, Any]:
                 if rnd.random() < 0.5:
                     e["args"]["memory bandwidth (GB/s)"] = rnd.choice([0.1, 3.3, 7.77, 0.003, 123.456])
         gen_sim.drop_events(rnd, tr, p_launch=rnd.choice([0, 0, 0.1]), p_kernel=rnd.choice([0, 0, 0.1]))
+        if rnd.random() < 0.3:
+            # copies / memsets recorded without a correlation id (their launch was not traced at all): they still move bytes
+            for e in tr["traceEvents"]:
+                if e.get("cat") in ("gpu_memcpy", "gpu_memset") and rnd.random() < 0.4:
+                    e["args"].pop("correlation", None)
         files[f"rank{r}.json" + (".gz" if rnd.random() < 0.3 else "")] = tr
     ranks = sorted(rnd.sample(range(n_ranks), rnd.randint(1, n_ranks)))
     file_requests, file_seed = rnd.choice([1, 1, 2, 3]), rnd.randrange(10 ** 6)
